@@ -55,8 +55,8 @@ type Hist struct {
 	Tasks   []TaskSpec `json:"tasks"`
 	Clients [][]Op     `json:"clients,omitempty"`
 	// random hook delays: with probability P/100 sleep up to MaxUs at the named points
-	HookP     int `json:"hook_p,omitempty"`
-	HookMaxUs int `json:"hook_max_us,omitempty"`
+	HookP     int    `json:"hook_p,omitempty"`
+	HookMaxUs int    `json:"hook_max_us,omitempty"`
 	Seed      uint64 `json:"seed"` // stream for in-history random choices (hook delays)
 }
 
@@ -147,15 +147,19 @@ func genGate(r *vlib.Rand, id int) Hist {
 			}
 			// a Cancel releases the queue slot at once: keep it the last call of the
 			// execution so that all inner calls stay sequential with the queue
-			var nc, cc []Op
+			// (a Cancel of the running task itself at most once and as the very last)
+			var nc, cc, self []Op
 			for _, o := range in {
-				if o.Kind == opCancel {
+				switch {
+				case o.Kind == opCancel && o.Task == i:
+					self = []Op{o}
+				case o.Kind == opCancel:
 					cc = append(cc, o)
-				} else {
+				default:
 					nc = append(nc, o)
 				}
 			}
-			h.Tasks[i].Inner = map[int][]Op{1: append(nc, cc...)}
+			h.Tasks[i].Inner = map[int][]Op{1: append(append(nc, cc...), self...)}
 		}
 	}
 	if r.Chance(1, 3) {
@@ -313,9 +317,9 @@ func genLong(id int) Hist {
 // caseList derives the fixed list of children (each with its histories) from the seed.
 func caseList(cfg vlib.Cfg) []childSpec {
 	var out []childSpec
-	nPlain, nRace, per := 12, 8, 12
+	nPlain, nRace, per := 24, 16, 40
 	if cfg.Thorough() {
-		nPlain, nRace, per = 64, 32, 32
+		nPlain, nRace, per = 96, 48, 60
 	}
 	id := 0
 	mk := func(kind string, ci int) childSpec {
